@@ -21,7 +21,7 @@ LEVEL = "translation_validation"
 RULE = (
     "Hypothesis generates actuator histories: 0-2 Leds, 0-1 RGBLed, 0-2 Servos (default and custom angle/pulse bounds), 0-1 DCMotor on distinct pins, "
     "3-25 operations drawn from every public method (on/off/toggle/set_brightness/blink/fade_in/fade_out/flash_pattern; set_color/on/off/fade/blink; "
-    "write/write_us; set_speed/backward/stop/coast/invert/ramp/run_for) with in-range, boundary values given as literals or as run-time expressions "
+    "write/write_us; set_speed/backward/stop/coast/invert/ramp/run_for) with in-range, boundary values given as literals or as run-time expressions (a quarter of the arguments repeat exactly a value an earlier command of the script used) "
     "of analog_read() values, and getter reads (get_state, get_brightness, read, read_us, get_speed, get_applied_speed, is_inverted, get_mode) after "
     "state changes; each history is compiled once and run with 3 (quick) / 8 (thorough) tapes. Oracle (a): trace equality with the instrumented "
     "host classes (per-pin signal, delays < 1 ms apart, motor duty +-1, getter values). Oracle (b), clamp mode with out-of-range arguments: every AW in "
@@ -60,6 +60,15 @@ class M:
         return v
 
     def ival(self, lo, hi, small=False):
+        used = self.__dict__.setdefault("used_ints", {}).setdefault((lo, hi), [])
+        cand = [u for u in used if not small or u.lstrip("-").isdigit()]
+        if cand and self.draw(st.integers(0, 3)) == 0:
+            return cand[self.draw(st.integers(0, len(cand) - 1))]
+        v = self._ival(lo, hi, small)
+        used.append(v)
+        return v
+
+    def _ival(self, lo, hi, small=False):
         if self.clamp and self.draw(st.integers(0, 2)) == 0:
             return str(self.draw(st.sampled_from([-1, -300, hi + 1, hi + 500, 100000, -32768])))
         mode = self.draw(st.sampled_from(["lit", "lit", "bound", "rt"]))
@@ -70,6 +79,15 @@ class M:
         return str(self.draw(st.integers(lo, hi)))
 
     def speed(self):
+        used = self.__dict__.setdefault("used_speeds", [])
+        if used and self.draw(st.integers(0, 3)) == 0:
+            # the very value (literal or run-time variable) an earlier command used: ramp to the present speed, set_speed twice, ...
+            return used[self.draw(st.integers(0, len(used) - 1))]
+        v = self._speed()
+        used.append(v)
+        return v
+
+    def _speed(self):
         if self.clamp and self.draw(st.integers(0, 2)) == 0:
             return str(self.draw(st.sampled_from([1.5, -1.5, 2, -7, 100.0])))
         mode = self.draw(st.sampled_from(["lit", "lit", "bound", "rt"]))
